@@ -48,7 +48,14 @@ def eval_prog(ld, st, groups=None):
                       'expectation': why}, {'context': pr.context, 'route': pr.route, 'why': why,
                                             'taint': pr.taint[0] if pr.taint else None})
         return
-    if not any(discovery.src_multiset(e) == got_s for e in ok_params):
+    if pr.route == 'wrapsdeco':
+        # one more level of forwarding: the only-wrapping decorator at depth 0, the wrapper below it
+        d = dict((discovery.fid(f), v) for f, v in sig.sources.get('+depths', {}).items())
+        if why == 'declared' and not (d.get(discovery.fid(ld.w)) == 0 and d.get(discovery.fid(discovery.own_func(ld)), 1) == 1):
+            st.violation('discovered-provenance-differs-from-declaration', case,
+                         {'program': discovery.show_prog(ld), 'discovered_sources': alg.src_show(sig),
+                          'problem': 'decorator that only wraps is not at depth 0 with the wrapper at depth 1'}, {'route': pr.route})
+    elif not any(discovery.src_multiset(e) == got_s for e in ok_params):
         st.violation('discovered-provenance-differs-from-declaration', case,
                      {'program': discovery.show_prog(ld), 'discovered': str(sig), 'discovered_sources': alg.src_show(sig),
                       'declared_sources': alg.src_show(ok_params[0])}, {'context': pr.context, 'route': pr.route, 'why': why})
